@@ -139,6 +139,18 @@ func init() {
 		vfRings = append(vfRings, once, twice)
 		once, twice = rot(once), rot(twice)
 	}
+	// two result polygons that touch at a vertex lying exactly on a side, the second one leaving the box
+	// again through that side; all four sides, and the mirror image (the catalogue runs every ring as
+	// listed with CCW and reversed with CW)
+	kiss := orb.Ring{{-1, 5}, {-1, 1.5}, {1.5, 1.5}, {1, 4}, {2, 3}, {3, 5}, {-1, 5}}
+	mirror := make(orb.Ring, len(kiss))
+	for i, p := range kiss {
+		mirror[len(kiss)-1-i] = orb.Point{4 - p[0], p[1]}
+	}
+	for k := 0; k < 4; k++ {
+		vfRings = append(vfRings, kiss, mirror)
+		kiss, mirror = rot(kiss), rot(mirror)
+	}
 }
 
 func vfEvenOdd(r orb.Ring, q orb.Point) bool {
